@@ -984,23 +984,37 @@ impl World {
         &'a self,
         types: &'a Types,
     ) -> IndexMap<&'a str, ItemKind> {
-        let mut interfaces = IndexMap::new();
-        let mut add_interface_for_used_type = |used_item: &UsedType| {
+        // Adds the interface of a used type and, transitively, the interfaces
+        // that interface uses itself.
+        fn add_interface_for_used_type<'a>(
+            types: &'a Types,
+            interfaces: &mut IndexMap<&'a str, ItemKind>,
+            used_item: &UsedType,
+        ) {
             let used_interface_id = used_item.interface;
             // The id must be set since used interfaces are always named.
             let used_interface_name = types[used_interface_id].id.as_deref().unwrap();
-            interfaces.insert(used_interface_name, ItemKind::Instance(used_interface_id));
-        };
-
-        for (_, used_type) in self.uses.iter() {
-            add_interface_for_used_type(used_type);
+            if interfaces
+                .insert(used_interface_name, ItemKind::Instance(used_interface_id))
+                .is_none()
+            {
+                for (_, used_item) in &types[used_interface_id].uses {
+                    add_interface_for_used_type(types, interfaces, used_item);
+                }
+            }
         }
 
-        for (_, import) in self.imports.iter() {
-            if let ItemKind::Instance(interface_id) = import {
-                let import = &types[*interface_id];
-                for (_, used_item) in &import.uses {
-                    add_interface_for_used_type(used_item);
+        let mut interfaces = IndexMap::new();
+        for (_, used_type) in self.uses.iter() {
+            add_interface_for_used_type(types, &mut interfaces, used_type);
+        }
+
+        // The interfaces used by the imported and by the exported interfaces
+        for (_, item) in self.imports.iter().chain(self.exports.iter()) {
+            if let ItemKind::Instance(interface_id) = item {
+                let interface = &types[*interface_id];
+                for (_, used_item) in &interface.uses {
+                    add_interface_for_used_type(types, &mut interfaces, used_item);
                 }
             }
         }
